@@ -25,7 +25,13 @@ elements, the observable `node`, attributes outside _props):
     (same document twice, two documents) / update_from_node / update_from_other_container on populated instances:
     no mutable object in common at any depth (path reported), in-place mutation of either side invisible in
     the other;
-  * alias-mdib: entity getters and entity.update() of a ProviderMdib against the containers inside the mdib."""
+  * alias-mdib: entity getters and entity.update() of a ProviderMdib against the containers inside the mdib, also for
+    entities that are OLDER than the mdib (context states added / changed / removed, single states changed since);
+  * alias-tables: the containers INSIDE a set-up mdib, for every MDIB file of tests/: after ProviderMdib.from_mdib_file /
+    from_string (two mdibs from the same bytes too), after each xtra set-up method, set_location and context state
+    transactions, after SdcProvider.start_all with the tutorial role providers, the ConsumerMdib after init_mdib and
+    after reports: no mutable object reachable from two different containers of descriptions / states /
+    context_states; in-place mutation of one container leaves the value of all the others unchanged."""
 import json
 
 from lib import Raw, coqlit  # noqa: F401
@@ -165,11 +171,21 @@ def judge(ctx, case, tr):
 def identity_streams(ctx):
     """alias-ctor / alias-sep / alias-mdib: findings of c12b_impl become oracle failures"""
     request = {'seed': ctx.rng.randrange(1 << 30), 'ctor_rounds': ctx.n(2, 8), 'sep_rounds': ctx.n(1, 8)}
-    res = ctx.impl('c12b_impl', request, timeout=2400)
+    request_tables = {'seed': request['seed'], 'ctor': False, 'sep': False, 'mdib': False, 'tables': True,
+                      'table_sweep': ctx.n(8, 40)}
+    from concurrent.futures import ThreadPoolExecutor
+    with ThreadPoolExecutor(max_workers=2) as ex:        # two processes: the tables stream starts providers / consumers
+        res, res_t = ex.map(lambda rq: ctx.impl('c12b_impl', rq, timeout=2400), [request, request_tables])
     if res.get('_crash'):
         ctx.broken('correspondence', 'alias-ctor / alias-sep / alias-mdib (implementation run)', res['stderr'])
         return
-    for stream, part, unit in (('alias-ctor', 'ctor', 'instances'), ('alias-sep', 'sep', 'pairs'), ('alias-mdib', 'mdib', 'pairs')):
+    if res_t.get('_crash'):
+        ctx.broken('correspondence', 'alias-tables (implementation run)', res_t['stderr'])
+        res_t = {}
+    res['tables'] = res_t.get('tables')
+    requests = {'tables': request_tables}
+    for stream, part, unit in (('alias-ctor', 'ctor', 'instances'), ('alias-sep', 'sep', 'pairs'), ('alias-mdib', 'mdib', 'pairs'),
+                               ('alias-tables', 'tables', 'containers')):
         r = res.get(part) or {'crash': 'stream missing in the output'}
         if 'crash' in r:
             ctx.broken('correspondence', f'{stream} (implementation run)', r['crash'])
@@ -179,7 +195,8 @@ def identity_streams(ctx):
             if f.get('kind'):
                 sig['kind'] = f['kind']
             ctx.fail(f'{stream}: {f["clause"]}' + (f' ({f["kind"]})' if f.get('kind') else '') + f': {f["detail"]}',
-                     sig, {'stream': stream, 'class': f['cls'], 'path': f['path'], 'request': dict(request, only=[f['cls']]),
+                     sig, {'stream': stream, 'class': f['cls'], 'path': f['path'],
+                           'request': dict(requests.get(part, request), only=[f['cls']]),
                            'finding': f['replay'], 'classes_with_this_finding': len(
                                [k for k in r['finding_counts'] if k.startswith(
                                    f['clause'] + (': ' + f['kind'] if f.get('kind') else '') + ' | ' + f['op'] + ' | ')])})
@@ -263,8 +280,10 @@ def run(ctx):
              'observation sequences.  alias-ctor / alias-sep / alias-mdib: for EVERY class, object identity judged '
              'directly: pairwise sharing among all live instances, class defaults and default-argument objects after '
              'construction through every constructor variant; after mk_copy / deepcopy / from_node / update_from_node / '
-             'update_from_other_container / entity getter / entity.update no common mutable object at any depth; after '
-             'every single in-place mutation of every reachable mutable object all other values unchanged',
+             'update_from_other_container / entity getter / entity.update (also of entities older than the mdib) no common '
+             'mutable object at any depth; after every single in-place mutation of every reachable mutable object all other '
+             'values unchanged; alias-tables: no mutable object reachable from two containers of the tables of a provider / '
+             'consumer mdib at every set-up stage, for all MDIB files of tests/',
         assumptions=['the model is the REPAIRED code (fixes/C12_parse_default, fixes/C12_mk_copy); C12_parse_refuted / '
                      'C12_mkcopy_refuted state what the unrepaired code does',
                      'update_from_other_container keeps sharing one level below the copied values (C12_update_refuted, '
@@ -290,11 +309,14 @@ def run(ctx):
 
 
 def replay(ctx, rep):
-    if rep.get('stream') in ('alias-ctor', 'alias-sep', 'alias-mdib'):
-        part = {'alias-ctor': 'ctor', 'alias-sep': 'sep', 'alias-mdib': 'mdib'}[rep['stream']]
-        request = dict(rep['request'], ctor=part == 'ctor', sep=part == 'sep', mdib=part == 'mdib')
-        if part == 'mdib':
+    if rep.get('stream') in ('alias-ctor', 'alias-sep', 'alias-mdib', 'alias-tables'):
+        part = {'alias-ctor': 'ctor', 'alias-sep': 'sep', 'alias-mdib': 'mdib', 'alias-tables': 'tables'}[rep['stream']]
+        request = dict(rep['request'], ctor=part == 'ctor', sep=part == 'sep', mdib=part == 'mdib', tables=part == 'tables')
+        if part in ('mdib', 'tables'):
             request['only'] = None
+        if part == 'tables' and rep.get('finding', {}).get('mdib_file'):
+            request['table_files'] = [rep['finding']['mdib_file']]
+            request['world_files'] = [rep['finding']['mdib_file']]
         res = ctx.impl('c12b_impl', request, timeout=2400)
         found = (res.get(part) or {}).get('findings', [])
         sig = rep['signature']
